@@ -591,6 +591,13 @@ theorem rescanEnvVars_preserves (cfg : KConfig) : Preserves FilesOK (fun s => s.
   unfold KState.rescanEnvVars at h
   exact foldlM_preserves FilesOK _ _ (fun (n : Node) => markStepPending'_preserves n.key) s s' hp h
 
+theorem checkConsistency_preserves : Preserves FilesOK (fun s => s.checkConsistency) := by
+  intro s s' hp h
+  replace h : s.checkConsistency = .ok s' := h
+  unfold KState.checkConsistency at h
+  exact foldlM_preserves FilesOK (fun (st : KState) (n : Node) => st.markStepPending n.key) _
+    (fun n => markStepPending'_preserves n.key) s s' hp h
+
 theorem hold_preserves (k : Key) : Preserves FilesOK (fun s => s.hold k) := by
   intro s s' hp h
   replace h : s.hold k = .ok s' := h
